@@ -471,7 +471,7 @@ theorem cmdUser_safe : ClientSafe cmdUser 3 false := by
   intro c sid m s hp hs _ _ hn
   unfold cmdUser
   obtain ⟨p0, hp0⟩ := param_ok (m := m) (i := 0) (by omega)
-  have h1 := modS_of_get (c := c) (fun s => updateIrcPrefix { s with username := p0, realname := m.trailing }) hs
+  have h1 := modS_of_get (c := c) (fun s => updateIrcPrefix { s with username := truncateUsername p0, realname := m.trailing }) hs
   rw [hp0]
   simp only [Res.ok_bind]
   rw [h1]
